@@ -1130,6 +1130,10 @@ class Image(object):
         i = self.asarray()
         b = buffer._as_writeable_array()
 
+        # With slices, `sub_b` is a view of the buffer and the in-place
+        # operations below modify the buffer itself. With any other indexer
+        # (lists, integer arrays) Numpy hands us a copy, which is written back
+        # at the end.
         sub_b = b[by_idx, bx_idx]
         sub_i = i[iy_idx, ix_idx]
 
@@ -1144,7 +1148,9 @@ class Image(object):
             valid = ~np.isnan(sub_i)
             np.putmask(sub_b, valid, sub_i)
         elif self.mode == ImageMode.F16x3:
-            valid = ~np.any(np.isnan(sub_i), axis=2)
+            # (the channel axis is the last one, not necessarily axis 2: paired
+            # integer-array indexers select an (npix, 3) array)
+            valid = ~np.any(np.isnan(sub_i), axis=-1)
             valid = np.broadcast_to(valid[..., None], sub_i.shape)
             np.putmask(sub_b, valid, sub_i)
         elif self.mode in (ImageMode.U8, ImageMode.I16, ImageMode.I32):
@@ -1158,6 +1164,11 @@ class Image(object):
             raise Exception(
                 f"unhandled mode `{self.mode}` in update_into_maskable_buffer"
             )
+
+        # A view always overlaps the buffer's memory and a fresh copy never
+        # does, so the cheap bounds check is exact here.
+        if not np.may_share_memory(sub_b, b):
+            b[by_idx, bx_idx] = sub_b
 
     def is_completely_masked(self):
         """
